@@ -194,3 +194,13 @@ def dict_get(v, key):
 def unfz(v):
     from .evalr import _unfz
     return _unfz(v)
+
+
+def decided_outcome(summary):
+    """Like outcome(), but exits whose guard stays symbolic (they depend on inputs the table does not fix) are skipped:
+    the first exit whose guard folds to True decides."""
+    for ex in summary.exits:
+        g = tm.land(list(ex.guard))
+        if g is True:
+            return (ex.kind, ex.value if ex.kind == "return" else ex.exc)
+    return ("falloff", None)
